@@ -43,3 +43,5 @@ def run(check):
     # a forwarding call that is the object of an attribute access is a forwarding call (shared with C05.R11)
     from ..rules_visitor import rule_attribute_handler
     check.run_rule('C06.R10', lambda c: rule_attribute_handler(c, 'C06.R10'))
+    from ..rules_derived import rule_partial_function_explicit
+    check.run_rule('C06.R11', lambda c: rule_partial_function_explicit(c, 'C06.R11'))
